@@ -105,8 +105,9 @@ class FastHierarchyAnalyzer(HierarchyAnalyzerBase):
             # Generate graph
             taken_sel_opt = [X_INACTIVE_VALUE for _ in range(len(opt_idx_try))]
             while True:
-                # An infeasible graph cannot be resolved further: let the caller try a neighboring design vector
-                if not graph.feasible:
+                # A graph with confirmed incompatibilities cannot become feasible anymore (and its next-choice list may
+                # name removed choice nodes): let the caller try a neighboring design vector
+                if graph.has_confirmed_incompatibility_edges():
                     return tuple(taken_sel_opt), graph
 
                 # Get next selection-choice node
@@ -174,7 +175,7 @@ class FastHierarchyAnalyzer(HierarchyAnalyzerBase):
             exclude.add(opt_idx_try)
             exclude.add(opt_idx_imp)
 
-        if not graph_instance.feasible:
+        if graph_instance is None or not graph_instance.feasible:
             raise RuntimeError('No more feasible graphs!')
 
         # Update imputation cache
